@@ -13,10 +13,34 @@ def dex_files(ctx):
     return DEX_FILES if ctx.thorough else DEX_FILES[:-1]
 
 
-def make_nodes(n, ins_lists=None):
-    """n real StatementBlock nodes named '0'..'n-1' (real BasicBlock numbering / catch-type code is exercised)."""
-    from androguard.decompiler.basic_blocks import StatementBlock
-    return [StatementBlock(str(i), list(ins_lists[i]) if ins_lists else []) for i in range(n)]
+_HNODE = None
+
+
+def _hnode_class():
+    """StatementBlock with a fixed hash: dom_lt keeps predecessors and buckets in SETS of nodes, whose iteration order
+    follows the hash.  The default id()-based hash would make that order (and so the behaviour of a defective
+    dom_lt, and the reproducibility of a witness) depend on memory addresses."""
+    global _HNODE
+    if _HNODE is None:
+        from androguard.decompiler.basic_blocks import StatementBlock
+
+        class HNode(StatementBlock):
+            def __hash__(self):
+                return self._h
+        _HNODE = HNode
+    return _HNODE
+
+
+def make_nodes(n, ins_lists=None, hash_mode="asc"):
+    """n real StatementBlock nodes named '0'..'n-1' (real BasicBlock numbering / catch-type code is exercised).
+    hash_mode 'asc': sets of nodes iterate in ascending node index, 'desc': in descending index."""
+    cls = _hnode_class()
+    nodes = []
+    for i in range(n):
+        nd = cls(str(i), list(ins_lists[i]) if ins_lists else [])
+        nd._h = i + 1 if hash_mode == "asc" else n - i
+        nodes.append(nd)
+    return nodes
 
 
 def build(nodes, edges, entry=0):
